@@ -45,6 +45,7 @@ fn dim_hex(d: &Dimensionality) -> String {
 /// error messages of `Context::load` mapped to the tags the model emits
 pub fn error_tag(msg: &str) -> String {
     let m = msg.trim();
+    if m == "json" { return "json".to_string(); }
     let after = |p: &str| m.strip_prefix(p).map(|s| s.to_string());
     if let Some(r) = after("warning: multiple ") {
         let (ns, name) = r.split_once(" named ").unwrap_or((&r, ""));
@@ -139,24 +140,31 @@ pub fn loaddump(o: &Opts) -> i32 {
 /// expression *texts* are passed on, so the model parses them itself
 pub fn jsondefs(o: &Opts) -> i32 {
     let text = std::fs::read_to_string(o.input.as_ref().expect("--input")).expect("read");
-    let v: serde_json::Value = match serde_json::from_str(&text) { Ok(v) => v, Err(_) => { println!("jsonerror"); return 0; } };
-    let arr = match v.as_array() { Some(a) => a, None => { println!("jsonerror"); return 0; } };
+    print!("{}", jsondefs_text(&text));
+    0
+}
+
+pub fn jsondefs_text(text: &str) -> String {
+    use std::fmt::Write as _;
+    let mut out = String::new();
+    let v: serde_json::Value = match serde_json::from_str(text) { Ok(v) => v, Err(_) => return "jsonerror\n".into() };
+    let arr = match v.as_array() { Some(a) => a, None => return "jsonerror\n".into() };
     let s = |x: &serde_json::Value| x.as_str().map(|t| hex(t)).unwrap_or_else(|| "-".into());
     for e in arr {
         let head = format!("jdef {} doc={} cat={}", s(&e["name"]), s(&e["doc"]), s(&e["category"]));
-        match e["type"].as_str().unwrap_or("") {
-            "baseUnit" => println!("{} base {}", head, s(&e["longName"])),
-            "prefix" => println!("{} prefix {} {}", head, e["isLong"].as_bool().unwrap_or(false) as u8, s(&e["expr"])),
-            "unit" => println!("{} unit {}", head, s(&e["expr"])),
-            "quantity" => println!("{} quantity {}", head, s(&e["expr"])),
+        let _ = match e["type"].as_str().unwrap_or("") {
+            "baseUnit" => writeln!(out, "{} base {}", head, s(&e["longName"])),
+            "prefix" => writeln!(out, "{} prefix {} {}", head, e["isLong"].as_bool().unwrap_or(false) as u8, s(&e["expr"])),
+            "unit" => writeln!(out, "{} unit {}", head, s(&e["expr"])),
+            "quantity" => writeln!(out, "{} quantity {}", head, s(&e["expr"])),
             "substance" => {
                 let props: Vec<String> = e["properties"].as_array().map(|a| a.iter().map(|p| format!("{} {} {} doc={} IN {} OUT {}", s(&p["name"]), s(&p["inputName"]), s(&p["outputName"]), s(&p["doc"]), s(&p["input"]), s(&p["output"]))).collect()).unwrap_or_default();
-                println!("{} substance {} {}", head, s(&e["symbol"]), props.join(" ; "));
+                writeln!(out, "{} substance {} {}", head, s(&e["symbol"]), props.join(" ; "))
             }
-            "category" => println!("{} category {}", head, s(&e["displayName"])),
-            "error" => println!("{} error {}", head, s(&e["message"])),
-            _ => println!("jsonerror"),
-        }
+            "category" => writeln!(out, "{} category {}", head, s(&e["displayName"])),
+            "error" => writeln!(out, "{} error {}", head, s(&e["message"])),
+            _ => writeln!(out, "jsonerror"),
+        };
     }
-    0
+    out
 }
